@@ -320,3 +320,23 @@ Proof.
   split; [intros d Hd; exists d; split; [apply C02.DecimalProofs.dec_roundtrip; exact Hd|apply same_num_refl]|].
   vm_compute. repeat split.
 Qed.
+
+(** ---------------------------------------------------------------- element members vs attribute members *)
+(** occurrence of the members of one element: element members are judged by the child elements alone,
+    attribute members by the attributes alone; nodes of the other kind with the same name never matter *)
+Theorem C05_member_freq_by_kind : forall decls children attrs,
+  xml_member_freq decls children attrs
+  = xml_freq (of_kind false decls) children && xml_freq (of_kind true decls) attrs.
+Proof. exact xml_member_freq_by_kind. Qed.
+Theorem C05_stray_nodes_irrelevant : forall decls children attrs children' attrs',
+  (forall k, In k (map (fun d : occ_decl => fst (fst d)) (of_kind false decls)) -> count_name k children' = count_name k children) ->
+  (forall k, In k (map (fun d : occ_decl => fst (fst d)) (of_kind true decls)) -> count_name k attrs' = count_name k attrs) ->
+  xml_member_freq decls children' attrs' = xml_member_freq decls children attrs.
+Proof. exact stray_nodes_irrelevant. Qed.
+Example C05_ex_member_freq :
+  let decls := [([99]%Z, false, 1%Z, Fin 1); ([107]%Z, true, 1%Z, Fin 1)] in
+  xml_member_freq decls [] [[99]%Z; [107]%Z] = false            (* attribute 'c' is not element 'c' *)
+  /\ xml_member_freq decls [[99]%Z] [[99]%Z; [107]%Z] = true    (* one element, a stray attribute *)
+  /\ xml_member_freq decls [[99]%Z; [107]%Z] [] = false         (* child 'k' is not attribute 'k' *)
+  /\ xml_member_freq decls [[99]%Z; [107]%Z] [[107]%Z] = true.
+Proof. vm_compute. repeat split. Qed.
